@@ -62,6 +62,12 @@ var impls = map[string]func(string) string{
 	"sftp.store":      implSftpStore,
 	"sftp.get":        implSftpGet,
 	"sftp.has":        implSftpHas,
+	"gcs.get":         implGcsGet,
+	"gcs.store":       implGcsStore,
+	"gcs.bulk":        implGcsBulk,
+	"gcs.has":         implGcsHas,
+	"gcs.prune":       implGcsPrune,
+	"gcsindex.ops":    implGcsIndexOps,
 }
 
 type replayFile struct {
